@@ -85,6 +85,20 @@ spec fn pre_offer(s: JobState) -> bool {
         JobState::Ephemeral(x) => x is NotReady || x == JobStateEphemeral::ReadyButDelayed,
     }
 }
+/// not yet judged: the state every job is created in
+spec fn pre_unknown(s: JobState) -> bool {
+    s == JobState::Always(JobStateAlways::Undetermined)
+        || s == JobState::Output(JobStateOutput::NotReady(ValidationStatus::Unknown))
+        || s == JobState::Ephemeral(JobStateEphemeral::NotReady(ValidationStatus::Unknown))
+}
+/// order inside the pre-offer phase: a verdict, once reached, is never revised or forgotten
+/// (not judged -> judged up to date / not up to date; an up-to-date Ephemeral -> parked until its consumers decide)
+#[verifier::opaque]
+spec fn pre_le(s: JobState, t: JobState) -> bool {
+    s == t || pre_unknown(s)
+        || (s == JobState::Ephemeral(JobStateEphemeral::NotReady(ValidationStatus::Validated))
+            && t == JobState::Ephemeral(JobStateEphemeral::ReadyButDelayed))
+}
 spec fn is_ready(s: JobState) -> bool {
     match s {
         JobState::Always(x) => x == JobStateAlways::ReadyToRun,
@@ -148,7 +162,7 @@ spec fn running_of(s: JobState) -> JobState {
 /// Ephemeral success: NotReadyForCleanup -> {ReadyForCleanup, SkipCleanup}; ReadyForCleanup -> CleanedUp.
 spec fn lc_le(s: JobState, t: JobState) -> bool {
     same_kind(s, t) && (s == t
-        || pre_offer(s)
+        || (pre_offer(s) && (!pre_offer(t) || pre_le(s, t)))
         || (is_ready(s) && (is_running(t) || ran_ok(t) || is_exec_failure(t) || is_aborted(t)))
         || (is_running(s) && (ran_ok(t) || is_exec_failure(t) || is_aborted(t)))
         || (s == JobState::Output(JobStateOutput::FinishedSkipped)
@@ -164,7 +178,7 @@ spec fn lc_le(s: JobState, t: JobState) -> bool {
 /// the single transitions the statement allows (one state write)
 spec fn lc_step(s: JobState, t: JobState) -> bool {
     same_kind(s, t) && (
-        (pre_offer(s) && (pre_offer(t) || is_ready(t) || is_skipped(t) || upfailed(t) || is_aborted(t)))
+        (pre_offer(s) && ((pre_offer(t) && pre_le(s, t)) || is_ready(t) || is_skipped(t) || upfailed(t) || is_aborted(t)))
         || (is_ready(s) && (t == running_of(s) || is_aborted(t)))
         || (is_running(s) && (is_exec_failure(t) || is_aborted(t)
             || t == JobState::Always(JobStateAlways::FinishedSuccess)
@@ -184,8 +198,9 @@ proof fn lemma_lc_order(s: JobState, t: JobState, u: JobState)
         lc_le(s, s),
         lc_step(s, t) ==> lc_le(s, t),
         lc_le(s, t) && lc_le(t, u) ==> lc_le(s, u),
-        lc_le(s, t) && lc_le(t, s) ==> s == t || (pre_offer(s) && pre_offer(t)),
+        lc_le(s, t) && lc_le(t, s) ==> s == t,
 {
+    reveal(pre_le);
 }
 
 /// consequences of the order that the property statements need
@@ -199,7 +214,11 @@ proof fn lemma_lc_consequences(s: JobState, t: JobState)
         is_ready(t) && s != t ==> pre_offer(s),
         upfailed(t) ==> !is_ready(s) && !is_running(s) && !ran_ok(s),
         is_running(t) ==> pre_offer(s) || is_ready(s) || s == t,
+        pre_offer(s) && pre_offer(t) ==> pre_le(s, t),
+        pre_unknown(t) ==> s == t,
+        t == JobState::Ephemeral(JobStateEphemeral::NotReady(ValidationStatus::Invalidated)) ==> s == t || pre_unknown(s),
 {
+    reveal(pre_le);
 }
 
 // ---- the evaluator's abstract view and representation invariant
@@ -1051,7 +1070,8 @@ spec fn jobs_touch(a: Seq<NodeInfo>, b: Seq<NodeInfo>) -> bool {
 spec fn jobs_soft(a: Seq<NodeInfo>, b: Seq<NodeInfo>) -> bool {
     &&& a.len() == b.len()
     &&& forall|i: int| 0 <= i < a.len() ==> (#[trigger] b[i]).job_id == a[i].job_id && b[i].history_output == a[i].history_output
-            && (b[i].state == a[i].state || (pre_offer(a[i].state) && pre_offer(b[i].state) && same_kind(a[i].state, b[i].state)))
+            && (b[i].state == a[i].state || (pre_offer(a[i].state) && pre_offer(b[i].state) && same_kind(a[i].state, b[i].state)
+                && pre_le(a[i].state, b[i].state)))
 }
 
 /// `b` extends `a` by ConsiderJob signals for valid nodes only
@@ -1297,6 +1317,77 @@ pub broadcast proof fn lemma_map_insert_existing_dom<K, V>(m: Map<K, V>, k: K, v
     ensures #[trigger] m.insert(k, v).dom() == m.dom(),
 {
     assert(m.insert(k, v).dom() =~= m.dom());
+}
+
+// ---------------------------------------------------------------- "only Ephemeral jobs depend on it" (C03/C04/C07 exemption, C06 assert sites)
+/// every member is Ephemeral and every direct downstream of a member is a member
+spec fn eph_closed_set(dag: &GraphType, jobs: Seq<NodeInfo>, s: Set<usize>) -> bool {
+    &&& forall|v: usize| #![trigger s.contains(v)] s.contains(v) ==> jobs[v as int].state is Ephemeral
+    &&& forall|v: usize, d: usize| #![trigger s.contains(v), dag.has_edge(v, d)] s.contains(v) && dag.has_edge(v, d) ==> s.contains(d)
+}
+
+/// `n` and everything that depends on it, directly or indirectly, is Ephemeral
+spec fn all_eph_down(dag: &GraphType, jobs: Seq<NodeInfo>, n: usize) -> bool {
+    exists|s: Set<usize>| #![trigger s.contains(n)] s.contains(n) && eph_closed_set(dag, jobs, s)
+}
+
+proof fn lemma_eph_closed_member(dag: &GraphType, jobs: Seq<NodeInfo>, s: Set<usize>, v: usize, d: usize)
+    requires eph_closed_set(dag, jobs, s), s.contains(v),
+    ensures jobs[v as int].state is Ephemeral, dag.has_edge(v, d) ==> s.contains(d),
+{
+}
+
+proof fn lemma_eph_closed_union(dag: &GraphType, jobs: Seq<NodeInfo>, s1: Set<usize>, s2: Set<usize>)
+    requires eph_closed_set(dag, jobs, s1), eph_closed_set(dag, jobs, s2),
+    ensures eph_closed_set(dag, jobs, s1.union(s2)),
+{
+    assert forall|v: usize, d: usize| #![trigger s1.union(s2).contains(v), dag.has_edge(v, d)]
+        s1.union(s2).contains(v) && dag.has_edge(v, d) implies s1.union(s2).contains(d) by {
+        if s1.contains(v) { lemma_eph_closed_member(dag, jobs, s1, v, d); } else { lemma_eph_closed_member(dag, jobs, s2, v, d); }
+    }
+}
+
+/// the closure depends only on the kinds of the jobs and on which dependencies exist
+proof fn lemma_all_eph_down_stable(d0: &GraphType, d1: &GraphType, j0: Seq<NodeInfo>, j1: Seq<NodeInfo>, n: usize)
+    requires dag_dom_same(d0, d1), j0.len() == j1.len(),
+        forall|i: int| 0 <= i < j0.len() ==> same_kind(j0[i].state, (#[trigger] j1[i]).state),
+        edges_in_range(d0, j0.len()), n < j0.len(),
+    ensures all_eph_down(d0, j0, n) == all_eph_down(d1, j1, n),
+{
+    lemma_dag_dom_range(d0, d1, j0.len());
+    lemma_dag_dom_range(d1, d0, j0.len());
+    if all_eph_down(d0, j0, n) {
+        let s = choose|s: Set<usize>| #![trigger s.contains(n)] s.contains(n) && eph_closed_set(d0, j0, s);
+        lemma_eph_closed_transfer(d0, d1, j0, j1, s, n);
+    }
+    if all_eph_down(d1, j1, n) {
+        let s = choose|s: Set<usize>| #![trigger s.contains(n)] s.contains(n) && eph_closed_set(d1, j1, s);
+        assert forall|i: int| 0 <= i < j1.len() implies same_kind(j1[i].state, (#[trigger] j0[i]).state) by {
+            assert(same_kind(j0[i].state, j1[i].state));
+        }
+        lemma_eph_closed_transfer(d1, d0, j1, j0, s, n);
+    }
+}
+
+proof fn lemma_eph_closed_transfer(d0: &GraphType, d1: &GraphType, j0: Seq<NodeInfo>, j1: Seq<NodeInfo>, s: Set<usize>, n: usize)
+    requires dag_dom_same(d0, d1), j0.len() == j1.len(),
+        forall|i: int| 0 <= i < j0.len() ==> same_kind(j0[i].state, (#[trigger] j1[i]).state),
+        edges_in_range(d0, j0.len()), n < j0.len(), s.contains(n), eph_closed_set(d0, j0, s),
+    ensures all_eph_down(d1, j1, n),
+{
+    lemma_dag_dom_range(d0, d1, j0.len());
+    // members reachable from n are in range; restrict the witness to job indices
+    let s2 = s.filter(|v: usize| v < j0.len());
+    assert forall|v: usize| #![trigger s2.contains(v)] s2.contains(v) implies j1[v as int].state is Ephemeral by {
+        assert(s.contains(v) && v < j0.len());
+        assert(same_kind(j0[v as int].state, j1[v as int].state));
+    }
+    assert forall|v: usize, d: usize| #![trigger s2.contains(v), d1.has_edge(v, d)] s2.contains(v) && d1.has_edge(v, d) implies s2.contains(d) by {
+        assert(s.contains(v) && v < j0.len());
+        assert(d0.has_edge(v, d));
+        lemma_eph_closed_member(d0, j0, s, v, d);
+    }
+    assert(s2.contains(n) && eph_closed_set(d1, j1, s2));
 }
 
 // ---------------------------------------------------------------- rename matcher (C04/C03: try_finding_renamed_multi_output_job)
@@ -1555,8 +1646,10 @@ proof fn lemma_soft_trans(a: Seq<NodeInfo>, b: Seq<NodeInfo>, c: Seq<NodeInfo>)
     requires jobs_soft(a, b), jobs_soft(b, c),
     ensures jobs_soft(a, c),
 {
+    reveal(pre_le);
     assert forall|i: int| 0 <= i < a.len() implies (#[trigger] c[i]).job_id == a[i].job_id && c[i].history_output == a[i].history_output
-            && (c[i].state == a[i].state || (pre_offer(a[i].state) && pre_offer(c[i].state) && same_kind(a[i].state, c[i].state))) by {
+            && (c[i].state == a[i].state || (pre_offer(a[i].state) && pre_offer(c[i].state) && same_kind(a[i].state, c[i].state)
+                && pre_le(a[i].state, c[i].state))) by {
         assert(b[i].job_id == a[i].job_id);
     }
 }
@@ -2123,9 +2216,52 @@ proof fn lemma_upfail_kept(a: Seq<Signal>, b: Seq<Signal>, d: usize)
     assert(b[q].kind == SignalKind::JobUpstreamFailure && b[q].node_idx == d);
 }
 
-/// pending "ready to run" decisions were taken with all upstreams finished (C02)
+/// pending decisions stay justified until they are handled:
+/// "ready to run" was decided with all upstreams finished (C02); "skip" of an Ephemeral job that is not up to date
+/// was decided because only Ephemeral jobs depend on it (C06: the assert in the JobFinishedSkip handler)
+spec fn has_down(dag: &GraphType, n: usize) -> bool {
+    exists|d: usize| dag.is_nbr(n, Direction::Outgoing, d)
+}
+
+#[verifier::opaque]
+spec fn skip_gate(dag: &GraphType, jobs: Seq<NodeInfo>, n: usize) -> bool {
+    jobs[n as int].state is Ephemeral ==>
+        !pre_unknown(jobs[n as int].state)
+        && (jobs[n as int].state == JobState::Ephemeral(JobStateEphemeral::NotReady(ValidationStatus::Invalidated))
+            ==> !has_down(dag, n) || all_eph_down(dag, jobs, n))
+}
+
+spec fn sig_gate(dag: &GraphType, jobs: Seq<NodeInfo>, s: Signal) -> bool {
+    (s.kind == SignalKind::JobReadyToRun ==> all_up_done(dag, jobs, s.node_idx))
+    && (s.kind == SignalKind::JobFinishedSkip ==> skip_gate(dag, jobs, s.node_idx))
+}
+
 spec fn sigs_gate_ok(s: Seq<Signal>, from: int, dag: &GraphType, jobs: Seq<NodeInfo>) -> bool {
-    forall|k: int| from <= k < s.len() && (#[trigger] s[k]).kind == SignalKind::JobReadyToRun ==> all_up_done(dag, jobs, s[k].node_idx)
+    forall|k: int| from <= k < s.len() ==> sig_gate(dag, jobs, #[trigger] s[k])
+}
+
+proof fn lemma_skip_gate_step(dag: &GraphType, dag2: &GraphType, a: Seq<NodeInfo>, b: Seq<NodeInfo>, n: usize)
+    requires skip_gate(dag, a, n), jobs_step(a, b), dag_dom_same(dag, dag2), n < a.len(), edges_in_range(dag, a.len()),
+    ensures skip_gate(dag2, b, n),
+{
+    reveal(skip_gate);
+    lemma_dag_dom_range(dag, dag2, a.len());
+    assert(lc_le(a[n as int].state, b[n as int].state));
+    lemma_lc_consequences(a[n as int].state, b[n as int].state);
+    if b[n as int].state is Ephemeral {
+        assert(a[n as int].state is Ephemeral);
+        if b[n as int].state == JobState::Ephemeral(JobStateEphemeral::NotReady(ValidationStatus::Invalidated)) {
+            assert(a[n as int].state == b[n as int].state);
+            assert forall|i: int| 0 <= i < a.len() implies same_kind(a[i].state, (#[trigger] b[i]).state) by {
+                assert(lc_le(a[i].state, b[i].state));
+            }
+            lemma_all_eph_down_stable(dag, dag2, a, b, n);
+            if has_down(dag2, n) {
+                let d = choose|d: usize| dag2.is_nbr(n, Direction::Outgoing, d);
+                assert(dag.is_nbr(n, Direction::Outgoing, d));
+            }
+        }
+    }
 }
 
 proof fn lemma_sigs_gate_step(s: Seq<Signal>, from: int, dag: &GraphType, dag2: &GraphType, a: Seq<NodeInfo>, b: Seq<NodeInfo>)
@@ -2134,15 +2270,21 @@ proof fn lemma_sigs_gate_step(s: Seq<Signal>, from: int, dag: &GraphType, dag2: 
     ensures sigs_gate_ok(s, from, dag2, b),
 {
     lemma_dag_dom_range(dag, dag2, a.len());
-    assert forall|k: int| from <= k < s.len() && (#[trigger] s[k]).kind == SignalKind::JobReadyToRun implies all_up_done(dag2, b, s[k].node_idx) by {
+    assert forall|k: int| from <= k < s.len() implies sig_gate(dag2, b, #[trigger] s[k]) by {
         let n = s[k].node_idx;
-        assert(all_up_done(dag, a, n));
-        assert forall|u: usize| #![trigger dag2.is_nbr(n, Direction::Incoming, u)] dag2.is_nbr(n, Direction::Incoming, u) implies finished(b[u as int].state) by {
-            assert(dag.is_nbr(n, Direction::Incoming, u));
-            assert(dag.has_edge(u, n));
-            assert(finished(a[u as int].state));
-            assert(lc_le(a[u as int].state, b[u as int].state));
-            lemma_lc_consequences(a[u as int].state, b[u as int].state);
+        assert(sig_gate(dag, a, s[k]));
+        if s[k].kind == SignalKind::JobReadyToRun {
+            assert(all_up_done(dag, a, n));
+            assert forall|u: usize| #![trigger dag2.is_nbr(n, Direction::Incoming, u)] dag2.is_nbr(n, Direction::Incoming, u) implies finished(b[u as int].state) by {
+                assert(dag.is_nbr(n, Direction::Incoming, u));
+                assert(dag.has_edge(u, n));
+                assert(finished(a[u as int].state));
+                assert(lc_le(a[u as int].state, b[u as int].state));
+                lemma_lc_consequences(a[u as int].state, b[u as int].state);
+            }
+        }
+        if s[k].kind == SignalKind::JobFinishedSkip {
+            lemma_skip_gate_step(dag, dag2, a, b, n);
         }
     }
 }
@@ -2151,9 +2293,9 @@ proof fn lemma_sigs_gate_subset(a: Seq<Signal>, b: Seq<Signal>, dag: &GraphType,
     requires sigs_gate_ok(a, 0, dag, jobs), forall|k: int| 0 <= k < b.len() ==> a.contains(#[trigger] b[k]),
     ensures sigs_gate_ok(b, 0, dag, jobs),
 {
-    assert forall|k: int| 0 <= k < b.len() && (#[trigger] b[k]).kind == SignalKind::JobReadyToRun implies all_up_done(dag, jobs, b[k].node_idx) by {
+    assert forall|k: int| 0 <= k < b.len() implies sig_gate(dag, jobs, #[trigger] b[k]) by {
         let q = choose|q: int| 0 <= q < a.len() && a[q] == b[k];
-        assert(a[q].kind == SignalKind::JobReadyToRun);
+        assert(sig_gate(dag, jobs, a[q]));
     }
 }
 
@@ -2161,8 +2303,8 @@ proof fn lemma_sigs_gate_ext(a: Seq<Signal>, b: Seq<Signal>, n: nat, dag: &Graph
     requires sigs_gate_ok(a, 0, dag, jobs), sig_ext_consider(a, b, n),
     ensures sigs_gate_ok(b, 0, dag, jobs),
 {
-    assert forall|k: int| 0 <= k < b.len() && (#[trigger] b[k]).kind == SignalKind::JobReadyToRun implies all_up_done(dag, jobs, b[k].node_idx) by {
-        if k < a.len() { assert(b[k] == a[k]); }
+    assert forall|k: int| 0 <= k < b.len() implies sig_gate(dag, jobs, #[trigger] b[k]) by {
+        if k < a.len() { assert(b[k] == a[k]); assert(sig_gate(dag, jobs, a[k])); }
     }
 }
 
